@@ -12,6 +12,7 @@ Graph.tla in C11, Binned.tla in C10.)
   Regex.tla       motif patterns (letters, '.', classes, gaps) rolled over ragged sequences (sequence/string_matcher.py)
   Join.tla        left join of two key-grouped streams (streams/left_join.py)
   Consensus.tla   single-base variants applied to reference sequences (variants/consensus.py)
+  Motif.tla       motif files (.jaspar, .csv) read with read_motif and scored (io/jaspar.py, io/motifs.py)
   Windows.tla!Index   k-mer index and lookup (sequence/indexing/kmer_indexing.py), on the states of MC_C13
 """
 import os
@@ -274,9 +275,44 @@ def check_consensus(v):
     return {"n": n, "nt": [json.dumps(["cons", v["refs"], vs])] if len(vs) > 1 else [], "bad": bad}
 
 
+def check_motif(v):
+    """One state of spec/Motif.tla: the motif written as .jaspar and as .csv, read with read_motif, and scored."""
+    import bionumpy as bnp
+    from bionumpy.io import read_motif
+    from bionumpy.sequence.position_weight_matrix import get_motif_scores
+    order = "".join(chr(c) for c in v["order"])
+    W = len(v["e"][0])
+    d = os.path.join(v["_dir"], "motif_%d" % os.getpid())
+    os.makedirs(d, exist_ok=True)
+    weights = {order[l]: v["weights"][l] for l in range(len(order))}
+    letters = sorted(order)
+    seqs = ["".join(letters[(i + j) % len(letters)] for j in range(n)) for i, n in enumerate((W, W + 2, 1, W + 1))]
+    want = [[sum(weights[s[i + p]][p] for p in range(W)) * float(np.log(2)) for i in range(len(s) - W + 1)] for s in seqs]
+    bad, n = [], 0
+    for suffix, key in ((".jaspar", "jaspar"), (".csv", "csv")):
+        path = os.path.join(d, "m" + suffix)
+        with open(path, "wb") as f:
+            f.write(bytes(v[key]))
+
+        def run_():
+            pwm = read_motif(path)
+            return [[float(x) for x in row] for row in get_motif_scores(bnp.as_encoded_array(seqs), pwm).tolist()]
+        o = outcome(run_)
+        n += 1
+        if o[0] != "ok" or [len(r) for r in o[1]] != [len(r) for r in want] or any(abs(a - b) > 1e-9 for ra, rb in zip(o[1], want) for a, b in zip(ra, rb)):
+            bad.append({"what": "scores of a motif read from a %s file differ from the log odds of its counts" % suffix, "tags": {"spec": "Motif", "op": "read_motif", "file": suffix, "letters": len(order)},
+                        "vector": {k: v[k] for k in v if not k.startswith("_")}, "case": {"text": bytes(v[key]).decode(), "sequences": seqs}, "expected": want, "observed": o})
+    return {"n": n, "nt": [json.dumps(["motif", v["order"], v["e"]])], "bad": bad}
+
+
 def run(ctx):
     quick = ctx.tier == "quick"
     first = None
+    res = ctx.tlc("MC_Motif", tag="MC_Motif", spec="Spec", workers=4, constants={"Orders": "<- OrdAll", "W": 2, "Exps": [0, 2] if quick else [0, 1, 3]},
+                  invariants=["SameMotif", "Emit"])
+    for v in res.vectors:
+        v["_dir"] = ctx.work
+    ctx.absorb(core.pmap(check_motif, res.vectors, chunk=50))
     for refs, mv in (("R1", 2), ("R2", 2)) if quick else (("R1", 3), ("R2", 3)):
         res = ctx.tlc("MC_Consensus", tag="MC_Consensus_" + refs, spec="Spec", workers=4, constants={"Refs": "<- " + refs, "MaxVars": mv},
                       invariants=["LengthKept", "OnlyVariantPositionsChange", "Emit"], properties=["OneLetter"], coverage=True)
@@ -334,6 +370,10 @@ def replay(d):
         r = check_regex(v)
     elif d["tags"].get("spec") == "Consensus":
         r = check_consensus(v)
+    elif d["tags"].get("spec") == "Motif":
+        w = os.path.join(core.VERIF, ".work", "replay")
+        os.makedirs(w, exist_ok=True)
+        r = check_motif(dict(v, _dir=w))
     elif d["tags"].get("spec") == "Join":
         r = check_join(v)
     elif d["tags"].get("spec") == "Windows.Index":
